@@ -18,7 +18,7 @@ PROPS['C06'] = {
     'required_classes': {'all': ['has-bridge', 'both-branches-far', 'far-nonreturn-target', 'skip-255', 'skip-256',
                                  'label-with-3+-far-jumps']},
     'units': [
-        {'test': 'TestC06Labels', 'checks': {'quick': 1200, 'thorough': 48000}, 'shards': {'quick': 4, 'thorough': 16},
+        {'test': 'TestC06Labels', 'checks': {'quick': 6400, 'thorough': 48000}, 'shards': {'quick': 16, 'thorough': 16},
          'timeout': {'quick': 300, 'thorough': 3000}},
     ],
 }
@@ -44,7 +44,7 @@ PROPS['C01'] = {
                                  'default-for-nr-above-every-listed', 'errno-returned', 'program>255',
                                  'arch:x86_64', 'arch:i386', 'arch:arm', 'arch:aarch64', 'whole-table-group']},
     'units': [
-        {'test': 'TestC01Groups', 'checks': {'quick': 3000, 'thorough': 120000}, 'shards': {'quick': 6, 'thorough': 16},
+        {'test': 'TestC01Groups', 'checks': {'quick': 16000, 'thorough': 120000}, 'shards': {'quick': 16, 'thorough': 16},
          'timeout': {'quick': 300, 'thorough': 3000}},
     ],
 }
@@ -61,7 +61,7 @@ PROPS['C03'] = {
                                  'bait-argument-word-equals-a-listed-number', 'syscall-with>=2-lists', 'same-argument-twice-in-a-list',
                                  'conditional-syscall-in>=2-groups', 'OR:-earlier-list-failed-later-list-matched', 'program>255']},
     'units': [
-        {'test': 'TestC03Conditions', 'checks': {'quick': 4000, 'thorough': 160000}, 'shards': {'quick': 6, 'thorough': 16},
+        {'test': 'TestC03Conditions', 'checks': {'quick': 16000, 'thorough': 160000}, 'shards': {'quick': 16, 'thorough': 16},
          'timeout': {'quick': 300, 'thorough': 3000}},
     ],
 }
@@ -78,7 +78,7 @@ PROPS['C04'] = {
                                  'negative-control-0x3fffffff', 'arch-jump:long-form', 'arch-jump:short-form',
                                  'arch-jump:long-form-with-conditional-policy', 'arch-jump-distance-class:255', 'arch-jump-distance-class:256']},
     'units': [
-        {'test': 'TestC04Guards', 'checks': {'quick': 3000, 'thorough': 90000}, 'shards': {'quick': 6, 'thorough': 16},
+        {'test': 'TestC04Guards', 'checks': {'quick': 12000, 'thorough': 90000}, 'shards': {'quick': 16, 'thorough': 16},
          'timeout': {'quick': 300, 'thorough': 3000}},
     ],
 }
@@ -98,7 +98,7 @@ PROPS['C02'] = {
                          ['halves-in-different-relation-classes', 'bits-overlap-in-exactly-one-half']},
     'units': [
         {'test': 'TestC02Grid', 'shards': {'quick': 8, 'thorough': 8}, 'timeout': {'quick': 300, 'thorough': 600}},
-        {'test': 'TestC02Random', 'checks': {'quick': 40000, 'thorough': 2000000}, 'shards': {'quick': 4, 'thorough': 16},
+        {'test': 'TestC02Random', 'checks': {'quick': 160000, 'thorough': 2000000}, 'shards': {'quick': 8, 'thorough': 16},
          'timeout': {'quick': 300, 'thorough': 3000}},
     ],
 }
@@ -121,7 +121,7 @@ PROPS['C07'] = {
                                  'unimplemented-operation:last-in-list', 'unimplemented-operation:middle-of-list', 'unimplemented-operation:first-in-list',
                                  'argument-index>5:later-group', 'operation-spelled-in-other-case', 'arch-lookup']},
     'units': [
-        {'test': 'TestC07Validation', 'checks': {'quick': 12000, 'thorough': 600000}, 'shards': {'quick': 4, 'thorough': 16},
+        {'test': 'TestC07Validation', 'checks': {'quick': 48000, 'thorough': 600000}, 'shards': {'quick': 16, 'thorough': 16},
          'timeout': {'quick': 300, 'thorough': 3000}},
         {'test': 'TestC07Arch', 'timeout': {'quick': 120, 'thorough': 120}},
     ],
@@ -142,9 +142,9 @@ PROPS['C05'] = {
                                  'kernel:all-groups-empty', 'has-empty-group', 'program>255', 'has-argument-loads', 'order:big', 'order:little', 'order:native',
                                  'diff:both-reject', 'diff:both-accept', 'whole-table-group']},
     'units': [
-        {'test': 'TestC05Programs', 'checks': {'quick': 3200, 'thorough': 160000}, 'shards': {'quick': 8, 'thorough': 16},
+        {'test': 'TestC05Programs', 'checks': {'quick': 8000, 'thorough': 160000}, 'shards': {'quick': 16, 'thorough': 16},
          'helpers': ['kverify'], 'timeout': {'quick': 300, 'thorough': 3000}},
-        {'test': 'TestC05VerifierPort', 'checks': {'quick': 320, 'thorough': 16000}, 'shards': {'quick': 8, 'thorough': 16},
+        {'test': 'TestC05VerifierPort', 'checks': {'quick': 640, 'thorough': 16000}, 'shards': {'quick': 16, 'thorough': 16},
          'helpers': ['kverify'], 'timeout': {'quick': 300, 'thorough': 3000}},
     ],
 }
@@ -187,8 +187,8 @@ PROPS['C13'] = {
                     '"caller\'s policy" = exported fields and slice headers; the unexported arch cache may be filled in'],
     'required_classes': {'all': ['same-name-entries-merged', 'interleaved-with-other-policies', 'shared-slices', 'concurrent', 'text', 'processes']},
     'units': [
-        {'test': 'TestC13History', 'checks': {'quick': 3000, 'thorough': 90000}, 'shards': {'quick': 4, 'thorough': 16}, 'timeout': {'quick': 300, 'thorough': 3000}},
-        {'test': 'TestC13Concurrent', 'race': True, 'checks': {'quick': 600, 'thorough': 20000}, 'shards': {'quick': 3, 'thorough': 8},
+        {'test': 'TestC13History', 'checks': {'quick': 8000, 'thorough': 90000}, 'shards': {'quick': 8, 'thorough': 16}, 'timeout': {'quick': 300, 'thorough': 3000}},
+        {'test': 'TestC13Concurrent', 'race': True, 'checks': {'quick': 1200, 'thorough': 20000}, 'shards': {'quick': 6, 'thorough': 8},
          'env': {'GORACE': 'halt_on_error=1'}, 'timeout': {'quick': 400, 'thorough': 3000}},
         {'test': 'TestC13Text', 'checks': {'quick': 2000, 'thorough': 50000}, 'timeout': {'quick': 120, 'thorough': 600}},
         {'test': 'TestC13Processes', 'helpers': ['digest'], 'timeout': {'quick': 300, 'thorough': 1200}},
@@ -216,7 +216,7 @@ PROPS['C14'] = {
     'units': [
         {'test': 'TestC14Parsers', 'checks': {'quick': 20000, 'thorough': 1000000}, 'shards': {'quick': 2, 'thorough': 16}, 'timeout': {'quick': 300, 'thorough': 3000}},
         {'test': 'TestC14ParserNamesExhaustive', 'timeout': {'quick': 300, 'thorough': 300}},
-        {'test': 'TestC14Config', 'checks': {'quick': 3000, 'thorough': 150000}, 'shards': {'quick': 6, 'thorough': 16}, 'timeout': {'quick': 300, 'thorough': 3000}},
+        {'test': 'TestC14Config', 'checks': {'quick': 8000, 'thorough': 150000}, 'shards': {'quick': 16, 'thorough': 16}, 'timeout': {'quick': 300, 'thorough': 3000}},
     ],
 }
 MANIFEST_TEXT['C14'] = {'claim': 'parsers accept exactly the documented names in any ASCII case and return the vendored constants; generated policies rendered to the documented YAML dialect with generated spelling, or marshalled to YAML/JSON, and loaded as the sandbox command does compile to the identical program',
@@ -284,7 +284,7 @@ PROPS['C08'] = {
                                  'argument-condition-outcome-differs-between-probes', 'killed-by-SIGSYS-at-the-expected-probe', 'probe-denied-EPERM',
                                  'probe-trace-ENOSYS', 'probe-allowed', 'strace-cross-check']},
     'units': [
-        {'test': 'TestC08Kernel', 'checks': {'quick': 320, 'thorough': 20000}, 'shards': {'quick': 8, 'thorough': 16}, 'helpers': _KCHILD,
+        {'test': 'TestC08Kernel', 'checks': {'quick': 960, 'thorough': 20000}, 'shards': {'quick': 16, 'thorough': 16}, 'helpers': _KCHILD,
          'timeout': {'quick': 400, 'thorough': 3300}},
     ],
 }
@@ -305,7 +305,7 @@ PROPS['C09'] = {
     'required_classes': {'all': ['not-attached:EINVAL-oversize-program', 'not-attached:EINVAL-unknown-flag-bits', 'not-attached:EACCES-no-privilege', 'not-attached:thread-sync-refused',
                                  'pre-kernel-failure-with-nnp-requested', 'supported-probe', 'supported-after-a-load', 'attached', 'thread-sync-attached', 'uid:0', 'uid:65534']},
     'units': [
-        {'test': 'TestC09Histories', 'checks': {'quick': 240, 'thorough': 12000}, 'shards': {'quick': 8, 'thorough': 16}, 'helpers': _KCHILD,
+        {'test': 'TestC09Histories', 'checks': {'quick': 640, 'thorough': 12000}, 'shards': {'quick': 16, 'thorough': 16}, 'helpers': _KCHILD,
          'timeout': {'quick': 400, 'thorough': 3300}},
     ],
 }
@@ -325,7 +325,7 @@ PROPS['C10'] = {
                                  'threads>=25', 'strace-flags-word'],
                          'thorough': ['threads:64']},
     'units': [
-        {'test': 'TestC10ThreadSync', 'checks': {'quick': 160, 'thorough': 8000}, 'shards': {'quick': 8, 'thorough': 16}, 'helpers': _KCHILD,
+        {'test': 'TestC10ThreadSync', 'checks': {'quick': 400, 'thorough': 8000}, 'shards': {'quick': 16, 'thorough': 16}, 'helpers': _KCHILD,
          'timeout': {'quick': 500, 'thorough': 3300}},
     ],
 }
@@ -344,7 +344,7 @@ PROPS['C11'] = {
     'required_classes': {'all': ['uid:%d/nnp:%s' % (u, n) for u in (0, 65534) for n in ('true', 'false')] +
                          ['unprivileged+nnp+migrating-perturbation', 'unprivileged-load-refused', 'control-goroutine-migrated', 'strace-order-and-thread']},
     'units': [
-        {'test': 'TestC11NoNewPrivs', 'checks': {'quick': 240, 'thorough': 12000}, 'shards': {'quick': 8, 'thorough': 16}, 'helpers': _KCHILD,
+        {'test': 'TestC11NoNewPrivs', 'checks': {'quick': 640, 'thorough': 12000}, 'shards': {'quick': 16, 'thorough': 16}, 'helpers': _KCHILD,
          'timeout': {'quick': 500, 'thorough': 3300}},
     ],
 }
@@ -368,7 +368,7 @@ PROPS['C15'] = {
                                                           'unprivileged-without-nnp', 'binary-garbage', 'entry-without-arguments', 'entry-with-empty-arguments')] +
                          ['valid', 'target-sees-denied-and-allowed-probes', 'target-killed-at-the-expected-probe', 'uid:65534', 'nnp:false']},
     'units': [
-        {'test': 'TestC15Sandbox', 'checks': {'quick': 480, 'thorough': 16000}, 'shards': {'quick': 8, 'thorough': 16}, 'helpers': _SANDBOX,
+        {'test': 'TestC15Sandbox', 'checks': {'quick': 800, 'thorough': 16000}, 'shards': {'quick': 16, 'thorough': 16}, 'helpers': _SANDBOX,
          'timeout': {'quick': 500, 'thorough': 3300}},
     ],
 }
@@ -390,7 +390,7 @@ PROPS['C16'] = {
                                  'overlong-line:first', 'overlong-line:middle', 'overlong-line:last', 'TEXT-only-line', 'trigger-line-with-fewer-than-3-fields', 'parser:i386', 'parser:x86_64',
                                  'trigger-inside-a-wrapper-function', 'unreadable:<dir>', 'unreadable:/proc/self/mem', 'unsupported-parser-arch']},
     'units': [
-        {'test': 'TestC16Extraction', 'checks': {'quick': 6000, 'thorough': 240000}, 'shards': {'quick': 6, 'thorough': 16}, 'timeout': {'quick': 300, 'thorough': 3000}},
+        {'test': 'TestC16Extraction', 'checks': {'quick': 24000, 'thorough': 240000}, 'shards': {'quick': 16, 'thorough': 16}, 'timeout': {'quick': 300, 'thorough': 3000}},
         {'test': 'TestC16UnsupportedArch', 'timeout': {'quick': 60, 'thorough': 60}},
     ],
 }
@@ -413,7 +413,7 @@ PROPS['C17'] = {
     'required_classes': {'all': ['crash-before-first-flush', 'crash-between-flushes', 'tool-exit-nonzero-after-partial-output', 'tool-missing', 'tool-killed-by-signal', 'binary-changed', 'final-run-correct-profile',
                                  'binary:amd64', 'binary:386']},
     'units': [
-        {'test': 'TestC17Cache', 'checks': {'quick': 320, 'thorough': 8000}, 'shards': {'quick': 8, 'thorough': 16}, 'helpers': _PROFILER,
+        {'test': 'TestC17Cache', 'checks': {'quick': 480, 'thorough': 8000}, 'shards': {'quick': 16, 'thorough': 16}, 'helpers': _PROFILER,
          'timeout': {'quick': 500, 'thorough': 3300}},
     ],
 }
@@ -433,7 +433,7 @@ PROPS['C18'] = {
     'required_classes': {'all': ['format:config', 'format:code', 'format:default', 'binary:amd64', 'binary:386', 'empty-result', 'names>255', 'closure-checked',
                                  'blacklist-removes-and-allow-adds', 'duplicate-sites']},
     'units': [
-        {'test': 'TestC18Profiles', 'checks': {'quick': 160, 'thorough': 6000}, 'shards': {'quick': 8, 'thorough': 16}, 'helpers': _PROFILER,
+        {'test': 'TestC18Profiles', 'checks': {'quick': 480, 'thorough': 6000}, 'shards': {'quick': 16, 'thorough': 16}, 'helpers': _PROFILER,
          'timeout': {'quick': 500, 'thorough': 3300}},
     ],
 }
